@@ -80,6 +80,7 @@ type Env struct {
 	// CBGate, if non-nil, is received from inside every global callback
 	// before it returns (lets a script park the callback goroutine).
 	CBGate chan struct{}
+	gate   atomic.Pointer[chan struct{}]
 }
 
 // NewLayer allocates a layer with a fresh ID and registers it in the model.
@@ -213,7 +214,7 @@ func StartWith(parent context.Context, seed uint64, o Opts, initLayers func(e *E
 		p.OnNewConfig = func(_ context.Context, old, nw *Cfg) {
 			t := e.enterCB()
 			e.pause(o.SlowCB)
-			if g := e.CBGate; g != nil {
+			if g := e.cbGate(); g != nil {
 				<-g
 			}
 			e.exitCB(CBEvent{Enter: t, Kind: "new", Old: old, New: nw, OldFP: FPOf(old), NewFP: FPOf(nw), OldNil: old == nil, NewNil: nw == nil})
@@ -274,6 +275,24 @@ func (e *Env) onHook(name string, ctx context.Context, args []any) {
 	if h := e.ExtraHook; h != nil {
 		h(name, ctx, args)
 	}
+}
+
+// SetCBGate installs (or, with nil, removes) the channel every global callback waits on. The callbacks read it through
+// an atomic mirror: the callback goroutine may be running a callback while the test installs a gate.
+func (e *Env) SetCBGate(g chan struct{}) {
+	e.CBGate = g
+	if g == nil {
+		e.gate.Store(nil)
+		return
+	}
+	e.gate.Store(&g)
+}
+
+func (e *Env) cbGate() chan struct{} {
+	if p := e.gate.Load(); p != nil {
+		return *p
+	}
+	return nil
 }
 
 // ScribbleCallerDefaults overwrites, after Config has returned, what the caller's own defaults object holds (also
